@@ -13,6 +13,7 @@ import Distill.Model.Convert
 import Distill.Model.Words
 import Distill.Model.Render
 import Distill.Model.Title
+import Distill.Model.TextDoc
 import Distill.Model.Pagination
 import Distill.Model.PageGroups
 import Distill.Model.PathPattern
@@ -299,6 +300,20 @@ def absurlSlice : P String := do
   let absSet : String → String := fun v => match tbl.find? (fun e => e.1 == v) with | some e => e.2.2 | none => v
   pure ("|".intercalate ((absNode abs absSet t).elems.map (fun e => s!"{e.tag}:{attrsStr e.attrs}")))
 
+/-- `textblocks n group* m (k member* content title)*` → the initial grouping, and the flags
+ApplyToModel writes for the given final blocks -/
+def textblocksSlice : P String := do
+  let n ← nat
+  let gs ← many n nat
+  let m ← nat
+  let blocks ← many m (do
+    let k ← nat; let ms ← many k nat; let c ← bool; let t ← bool
+    pure ({ members := ms, content := c, title := t } : VBlock))
+  let pairs := (List.range n).zip gs
+  let init := groupBlocks pairs
+  let flags := (List.range n).map (fun i => let f := flagOf blocks i; s!"{bstr f.1}{bstr f.2}")
+  pure s!"{";".intercalate (init.map (fun b => ",".intercalate (b.map toString)))} | {" ".intercalate flags}"
+
 /-- `title markup orig hasH1 h1 headingMatch` → document title and result title -/
 def titleSlice : P String := do
   let markup ← str; let orig ← str; let hasH1 ← bool; let h1 ← str; let hm ← bool
@@ -391,6 +406,7 @@ def dispatch (slice : String) : Option (P String) :=
   | "countwords" => some countWordsSlice
   | "strip" => some stripSlice
   | "title" => some titleSlice
+  | "textblocks" => some textblocksSlice
   | "outputnodes" => some outputnodesSlice
   | "absurl" => some absurlSlice
   | "pagenum" => some pagenumSlice
